@@ -8,7 +8,28 @@ VERIF = os.path.normpath(os.path.join(os.path.dirname(os.path.abspath(__file__))
 sys.path.insert(0, os.path.join(VERIF, "tools"))
 import props
 prefix = sys.argv[1] if len(sys.argv) > 1 else ""
-ids = sys.argv[2:] or sorted(props.PROPS)
+ids_arg = sys.argv[2:]
+# properties anchored in a file (properties.jsonl) are the ones a change to that file can affect;
+# C01 always runs as a canary for build problems of the harness
+anch = {}
+for line in open(os.path.join(VERIF, "properties.jsonl")):
+    pr = json.loads(line)
+    for f in pr["anchors"]["files"]:
+        anch.setdefault(f, set()).add(pr["id"])
+
+
+def ids_for(patch):
+    if ids_arg:
+        return ids_arg
+    out = {"C01"}
+    for m in re.finditer(r"^\+\+\+ b/(\S+)", open(patch).read(), flags=re.M):
+        f = m.group(1)
+        out |= anch.get(f, set())
+        if f.startswith("ffi/"):
+            out |= {"C16", "C18", "C19"}
+        if f not in anch and not f.startswith("ffi/"):
+            out |= set(props.PROPS)    # unknown file: run everything
+    return sorted(out)
 results_path = os.path.join(VERIF, "benign", "RESULTS.json")
 results = json.load(open(results_path)) if os.path.exists(results_path) else {}
 if subprocess.run(["git", "-C", "/repo", "diff", "--quiet"]).returncode != 0:
@@ -22,7 +43,7 @@ for d in sorted(glob.glob(os.path.join(VERIF, "benign", prefix + "*"))):
         continue
     res = results.get(name, {}) if isinstance(results.get(name), dict) else {}
     try:
-        for p in ids:
+        for p in ids_for(os.path.join(d, "patch.diff")):
             out = subprocess.run([sys.executable, os.path.join(VERIF, "tools", "check.py"), p, "--tier", "quick"],
                                  capture_output=True, text=True, cwd=VERIF).stdout
             v = [l for l in out.splitlines() if l.startswith("VIOLATION")]
